@@ -17,16 +17,18 @@ TIMEOUT = {'quick': 300, 'thorough': 3000}
 MAXN = {'quick': 5, 'thorough': 6}
 N_RANDOM = {'quick': 2500, 'thorough': 150000}
 RULE = ('cases: (a) exhaustive: n in 2..N systems x priority pattern {all distinct, one tie, pairs of ties, all equal} x actor position x '
-        'action {clean_up self; remove each earlier system; remove each later system; replace each other system by a different object under the same id (same / top / bottom priority); register a new system with priority above all / '
+        'action {clean_up self; remove each earlier system; remove each later system; replace each other system by a different object under the same id (same / top / bottom priority); remove and re-register the SAME object (each system incl. the actor itself, same / top / bottom priority); register a new system with priority above all / '
         'just above the actor / equal / just below / below all} x action timestep {0,1}, one action per case, followed by two quiet '
-        'steps that must follow the new set\'s priority order; (b) random: 3-7 systems with 2-3 actors acting in the same timestep. '
+        'steps that must follow the new set\'s priority order, each case advanced both by single execute_systems() calls and by ONE '
+        'model.execute(n) call covering the whole block; (b) random: 3-7 systems with 2-3 actors acting in the same timestep. '
         'Oracle per action step: nobody twice; every system registered for the whole step exactly once and mutually in '
         '(descending priority, registration) order; a system removed before its turn zero times; a system registered mid-step 0 or 1 '
         'times. Non-trivial: the system set really changed during a step; distinct by (priorities, actor positions, actions).')
 ASSUMPTIONS = ['whether a system registered mid-timestep first runs in that timestep or the next is left open',
                'the oracle is computed from the script: a system removed before its turn does not perform its own scripted action']
 FLOORS = {'quick': {'action_steps': 2400, 'act_cleanup': 60, 'act_remove_earlier': 90, 'act_remove_later': 90, 'act_add_higher': 120,
-                    'act_add_equal': 60, 'act_add_lower': 120, 'act_replace_earlier': 200, 'act_replace_later': 200, 'quiet_steps': 4000, 'two_actor_steps': 1000,
+                    'act_add_equal': 60, 'act_add_lower': 120, 'act_replace_earlier': 200, 'act_replace_later': 200, 'act_readd_self': 200,
+                    'act_readd_earlier': 200, 'act_readd_later': 200, 'blocks_multi': 2000, 'blocks_single': 2000, 'quiet_steps': 4000, 'two_actor_steps': 1000,
                     'reach:Core.SystemManager.execute_systems': 5000, 'reach:Core.System.clean_up': 60},
           'thorough': {'action_steps': 100000, 'two_actor_steps': 80000}}
 EXHAUSTIVE = {}
@@ -43,10 +45,11 @@ def fixtures():
 
         def execute(self):
             w = self.world
-            w.log.append(self.uid)
-            act = w.script.get((self.uid, self.model.systems.timestep))
+            t = self.model.systems.timestep
+            w.log.append((t, self.uid))
+            act = w.script.pop((self.uid, t), None)        # every scripted action happens once
             if act is not None:
-                w.perform(self, act)
+                w.perform(self, act, t)
 
     return core, Scripted
 
@@ -56,68 +59,110 @@ class World:
         self.ctx = ctx
         self.core, self.Scripted = fixtures()
         self.model = self.core.Model()
-        self.log = []
+        self.log = []          # (timestep, uid)
         self.script = {}
-        self.ref = []          # dicts id, prio, seq  (registered now)
+        self.ref = []          # dicts id(uid), sid, prio, seq  (registered now)
         self.seq = 0
-        self.changes = []      # (kind, id) performed during the current step, in order
-        self.objs = {}
+        self.changes = []      # dicts kind, uid, t, pos (number of executions logged in that timestep before the change), entry
+        self.objs = {}         # uid -> object
         self.generation = {}
         for j, p in enumerate(prios):
             self.register(f's{j}', p)
+
+    def _entry(self, uid, sid, prio):
+        e = {'id': uid, 'sid': sid, 'prio': prio, 'seq': self.seq}
+        self.seq += 1
+        self.ref.append(e)
+        return e
 
     def register(self, sid, prio):
         self.generation[sid] = self.generation.get(sid, -1) + 1
         uid = sid if self.generation[sid] == 0 else f'{sid}#v{self.generation[sid] + 1}'
         o = self.Scripted(sid, self.model, self, priority=prio, uid=uid)
-        self.objs[sid] = o
+        self.objs[uid] = o
         self.model.systems.add_system(o)
-        self.ref.append({'id': uid, 'sid': sid, 'prio': prio, 'seq': self.seq})
-        self.seq += 1
-        return uid
+        return self._entry(uid, sid, prio)
 
     def order(self, ref=None):
         return [r['id'] for r in sorted(self.ref if ref is None else ref, key=lambda r: (-r['prio'], r['seq']))]
 
-    def perform(self, actor, act):
+    def _pos(self, t):
+        return sum(1 for (tt, _) in self.log if tt == t)
+
+    def perform(self, actor, act, t):
         kind = act[0]
+        rec = lambda k, uid, entry=None: self.changes.append({'kind': k, 'uid': uid, 't': t, 'pos': self._pos(t), 'entry': entry})  # noqa
         if kind == 'cleanup':
             actor.clean_up()
             self.ref = [r for r in self.ref if r['id'] != actor.uid]
-            self.changes.append(('removed', actor.uid, len(self.log)))
-        elif kind in ('remove', 'replace'):
+            rec('removed', actor.uid)
+        elif kind in ('remove', 'replace', 'readd'):
             target = act[1]            # a system id; the currently registered object under it is removed
             cur = [r for r in self.ref if r['sid'] == target]
             if cur:
                 self.model.systems.remove_system(target)
                 self.ref = [r for r in self.ref if r['sid'] != target]
-                self.changes.append(('removed', cur[0]['id'], len(self.log)))
-                if kind == 'replace':   # a different object under the same id, registered in the same timestep
-                    uid = self.register(target, act[2])
-                    self.changes.append(('added', uid, len(self.log)))
+                rec('removed', cur[0]['id'])
+                if kind == 'replace':   # a DIFFERENT object under the same id, registered in the same timestep
+                    e = self.register(target, act[2])
+                    rec('added', e['id'], e)
+                elif kind == 'readd':   # the SAME object again, with a changed priority (the usual way to change a priority)
+                    o = self.objs[cur[0]['id']]
+                    o.priority = act[2]
+                    self.model.systems.add_system(o)
+                    rec('added', o.uid, self._entry(o.uid, target, act[2]))
         elif kind == 'add':
             sid, prio = act[1], act[2]
             if not any(r['sid'] == sid for r in self.ref):
-                uid = self.register(sid, prio)
-                self.changes.append(('added', uid, len(self.log)))
+                e = self.register(sid, prio)
+                rec('added', e['id'], e)
 
-    def step(self, what):
-        start_ref = list(self.ref)
+    def run_block(self, n, mode, what):
+        """Advances n timesteps (n single execute_systems() calls, or ONE model.execute(n)) and then verifies every timestep of
+        the block against the reference replayed from the recorded changes."""
+        t0 = self.model.systems.timestep
+        ref_t = list(self.ref)
+        mark_c = len(self.changes)
+        if mode == 'multi':
+            self.model.execute(n)
+        else:
+            for _ in range(n):
+                self.model.systems.execute_systems()
+        check(self.model.systems.timestep == t0 + n, f'{n} timesteps requested, clock advanced by {self.model.systems.timestep - t0}', doing=what)
+        changed = False
+        for t in range(t0, t0 + n):
+            step_log = [u for (tt, u) in self.log if tt == t]
+            step_changes = [c for c in self.changes[mark_c:] if c['t'] == t]
+            self.ctx.ev()
+            if step_changes:
+                self.verify_action_step(t, step_log, ref_t, step_changes, what, mode)
+                changed = True
+                for c in step_changes:
+                    if c['kind'] == 'removed':
+                        ref_t = [r for r in ref_t if r['id'] != c['uid']]
+                    else:
+                        ref_t = ref_t + [c['entry']]
+            else:
+                exp = self.order(ref_t)
+                self.ctx.count('quiet_steps')
+                if step_log != exp:
+                    raise CaseViolation('a timestep without changes does not run exactly the registered systems in priority order '
+                                        '(after an earlier mid-timestep change)', timestep=t, expected=exp, observed=step_log, doing=what,
+                                        advanced_by=mode)
+        return changed
+
+    def verify_action_step(self, t, log, start_ref, changes, what, mode):
         start_order = self.order(start_ref)
-        del self.log[:]
-        del self.changes[:]
-        t = self.model.systems.timestep
-        self.model.systems.execute_systems()
-        log = list(self.log)
-        self.ctx.ev()
-        detail = dict(timestep=t, start_order=start_order, log=log, changes=list(self.changes), doing=what,
-                      priorities={r['id']: r['prio'] for r in start_ref})
-        # nobody twice
+        detail = dict(timestep=t, start_order=start_order, log=log, changes=[(c['kind'], c['uid'], c['pos']) for c in changes], doing=what,
+                      priorities={r['id']: r['prio'] for r in start_ref}, advanced_by=mode)
         dup = [i for i in set(log) if log.count(i) > 1]
         if dup:
             raise CaseViolation(f'system(s) {sorted(dup)} ran more than once in one timestep', **detail)
-        removed_at = {c[1]: c[2] for c in self.changes if c[0] == 'removed'}
-        added = {c[1] for c in self.changes if c[0] == 'added'}
+        removed_at = {}
+        for c in changes:
+            if c['kind'] == 'removed':
+                removed_at.setdefault(c['uid'], c['pos'])
+        added = {c['uid'] for c in changes if c['kind'] == 'added'}
         stayed = [i for i in start_order if i not in removed_at]
         for i in stayed:
             if i not in log:
@@ -126,26 +171,13 @@ class World:
         if got_stayed != stayed:
             raise CaseViolation('systems registered for the whole timestep ran out of priority order', expected=stayed, **detail)
         for i, at in removed_at.items():
+            if i in added:
+                continue       # the same object registered again in this step: newly registered (0 or 1 more run - 'nobody twice' above)
             if i in log and log.index(i) >= at:
                 raise CaseViolation(f'system {i} ran after it had been removed earlier in the same timestep', **detail)
-            if i in start_order and i not in log:
-                # removed before its turn: fine (must not run).  It must have been removed by somebody who ran before it.
-                pass
         for i in log:
             if i not in start_order and i not in added:
                 raise CaseViolation(f'unknown system {i} ran', **detail)
-        check(self.model.systems.timestep == t + 1, 'timestep did not advance by exactly one', **detail)
-        return bool(self.changes)
-
-    def quiet(self):
-        del self.log[:]
-        exp = self.order()
-        self.model.systems.execute_systems()
-        self.ctx.ev()
-        self.ctx.count('quiet_steps')
-        if self.log != exp:
-            raise CaseViolation('quiet timestep after a mid-step change does not follow the new set\'s priority order',
-                                expected=exp, observed=list(self.log))
 
 
 def patterns(n):
@@ -166,6 +198,9 @@ def exhaustive_cases(maxn):
                             yield {'kind': 'ex', 'prios': list(pr), 't': ta, 'actor': actor, 'action': ['remove', tgt]}
                             for rel in ('same', 'top', 'bottom'):
                                 yield {'kind': 'ex', 'prios': list(pr), 't': ta, 'actor': actor, 'action': ['replace', tgt, rel]}
+                    for tgt in range(n):        # the same object removed and registered again (incl. the actor itself)
+                        for rel in ('same', 'top', 'bottom'):
+                            yield {'kind': 'ex', 'prios': list(pr), 't': ta, 'actor': actor, 'action': ['readd', tgt, rel]}
                     for rel in ('top', 'above', 'equal', 'below', 'bottom'):
                         yield {'kind': 'ex', 'prios': list(pr), 't': ta, 'actor': actor, 'action': ['add', rel]}
 
@@ -176,36 +211,35 @@ def new_prio(rel, prios, actor_prio):
 
 
 def case_ex(ctx, case):
-    w = World(ctx, case['prios'])
-    order = w.order()
-    actor = f's{case["actor"]}'
-    a = case['action']
-    apos = order.index(actor)
-    if a[0] == 'cleanup':
-        act = ('cleanup',)
-        ctx.count('act_cleanup')
-    elif a[0] == 'remove':
-        tgt = f's{a[1]}'
-        act = ('remove', tgt)
-        ctx.count('act_remove_earlier' if order.index(tgt) < apos else 'act_remove_later')
-    elif a[0] == 'replace':
-        tgt = f's{a[1]}'
-        p = {'same': case['prios'][a[1]], 'top': max(case['prios']) + 1, 'bottom': min(case['prios']) - 1}[a[2]]
-        act = ('replace', tgt, p)
-        ctx.count('act_replace_earlier' if order.index(tgt) < apos else 'act_replace_later')
-    else:
-        p = new_prio(a[1], case['prios'], case['prios'][case['actor']])
-        act = ('add', 'new', p)
-        ctx.count({'top': 'act_add_higher', 'above': 'act_add_higher', 'equal': 'act_add_equal', 'below': 'act_add_lower',
-                   'bottom': 'act_add_lower'}[a[1]])
-    w.script[(actor, case['t'])] = act
-    for t in range(case['t']):
-        w.quiet()
-    changed = w.step(f'{actor} (position {apos} of {order}) does {act}')
-    ctx.count('action_steps')
-    check(changed, 'harness: scripted action did not happen', order=order, act=act, log=w.log)
-    w.quiet()
-    w.quiet()
+    for mode in ('single', 'multi'):
+        w = World(ctx, case['prios'])
+        order = w.order()
+        actor = f's{case["actor"]}'
+        a = case['action']
+        apos = order.index(actor)
+        if a[0] == 'cleanup':
+            act = ('cleanup',)
+            key = 'act_cleanup'
+        elif a[0] == 'remove':
+            tgt = f's{a[1]}'
+            act = ('remove', tgt)
+            key = 'act_remove_earlier' if order.index(tgt) < apos else 'act_remove_later'
+        elif a[0] in ('replace', 'readd'):
+            tgt = f's{a[1]}'
+            p = {'same': case['prios'][a[1]], 'top': max(case['prios']) + 1, 'bottom': min(case['prios']) - 1}[a[2]]
+            act = (a[0], tgt, p)
+            key = f'act_{a[0]}_' + ('self' if tgt == actor else ('earlier' if order.index(tgt) < apos else 'later'))
+        else:
+            p = new_prio(a[1], case['prios'], case['prios'][case['actor']])
+            act = ('add', 'new', p)
+            key = {'top': 'act_add_higher', 'above': 'act_add_higher', 'equal': 'act_add_equal', 'below': 'act_add_lower',
+                   'bottom': 'act_add_lower'}[a[1]]
+        ctx.count(key)
+        w.script[(actor, case['t'])] = act
+        changed = w.run_block(case['t'] + 3, mode, f'{actor} (position {apos} of {order}) does {act} at t={case["t"]}')
+        ctx.count('action_steps')
+        ctx.count('blocks_' + mode)
+        check(changed, 'harness: scripted action did not happen', order=order, act=act)
     ctx.distinct(('ex', tuple(case['prios']), case['t'], case['actor'], tuple(a)))
     ctx.state((tuple(case['prios']), apos, a[0]))
 
@@ -220,29 +254,29 @@ def case_rand(ctx, case):
     actors = rng.sample(range(n), rng.randint(2, min(3, n)))
     desc = []
     for k, ai in enumerate(actors):
-        kind = rng.choice(['cleanup', 'remove', 'remove', 'add', 'add', 'replace'])
+        kind = rng.choice(['cleanup', 'remove', 'remove', 'add', 'add', 'replace', 'readd', 'readd'])
         if kind == 'cleanup':
             act = ('cleanup',)
         elif kind == 'remove':
             act = ('remove', f's{rng.choice([j for j in range(n) if j != ai])}')
         elif kind == 'replace':
             act = ('replace', f's{rng.choice([j for j in range(n) if j != ai])}', rng.choice(levels) + rng.choice([-1, 0, 1]))
+        elif kind == 'readd':
+            act = ('readd', f's{rng.randrange(n)}', rng.choice(levels) + rng.choice([-2, -1, 0, 1]))
         else:
             act = ('add', f'new{k}', rng.choice(levels) + rng.choice([-1, 0, 1, 5, -5]))
-        w.script[(f's{ai}', ta)] = act
+        w.script[(f's{ai}', ta + (rng.choice([0, 0, 1]) if k else 0))] = act
         desc.append((f's{ai}', act))
-    for t in range(ta):
-        w.quiet()
-    changed = w.step(f'actors {desc}')
+    mode = rng.choice(['single', 'multi'])
+    changed = w.run_block(ta + 4, mode, f'actors {desc} from t={ta}')
     ctx.count('action_steps')
+    ctx.count('blocks_' + mode)
     if len(w.changes) >= 2:
         ctx.count('two_actor_steps')
-    w.quiet()
-    w.quiet()
     if changed:
-        ctx.distinct(('rand', tuple(prios), tuple(desc)))
+        ctx.distinct(('rand', tuple(prios), tuple(desc), mode))
     if case['i'] < 3:
-        ctx.sample({'kind': 'random two/three-actor step', 'priorities': prios, 'actors': desc, 'action_timestep': ta,
+        ctx.sample({'kind': 'random two/three-actor block', 'priorities': prios, 'actors': desc, 'action_timestep': ta, 'advanced_by': mode,
                     'order_after': w.order()})
 
 
